@@ -344,3 +344,14 @@ func vfParallel(n int, fn func(worker, i int)) {
 	}
 	wg.Wait()
 }
+
+func vfLoadReplay(t *testing.T, into any) {
+	t.Helper()
+	data, err := os.ReadFile(vfEnv().Replay)
+	if err != nil {
+		t.Fatalf("replay file: %v", err)
+	}
+	if err := json.Unmarshal(data, into); err != nil {
+		t.Fatalf("replay file: %v", err)
+	}
+}
